@@ -209,6 +209,7 @@ struct World {
     opens: Vec<(usize, usize)>, // (substream id, peer index)
     chans: Vec<Chan>,
     hpend: Vec<usize>,
+    feedback: Vec<(usize, futures::channel::oneshot::Receiver<()>)>,
 }
 
 impl World {
@@ -241,6 +242,15 @@ impl World {
                 }
             }
         }
+        let mut waiting = Vec::new();
+        for (irid, mut rx) in std::mem::take(&mut self.feedback) {
+            match rx.try_recv() {
+                Ok(Some(())) => events.push(vec![7, irid as u64, 1]),
+                Ok(None) => waiting.push((irid, rx)),
+                Err(_) => events.push(vec![7, irid as u64, 0]),
+            }
+        }
+        self.feedback = waiting;
         for i in 0..self.peers.len() {
             if self.connected[i] {
                 for sid in self.proto.take_open_requests(self.peers[i]) {
@@ -321,6 +331,7 @@ async fn run_ops(c: &[u64]) -> Option<Vec<u64>> {
         opens: Vec::new(),
         chans: Vec::new(),
         hpend: Vec::new(),
+        feedback: Vec::new(),
     };
     let mut out = vec![1u64];
     let mut i = 4;
@@ -435,7 +446,7 @@ async fn run_ops(c: &[u64]) -> Option<Vec<u64>> {
                     if tag == 9 && ch.out && ch.seen && len <= (1 << 20) {
                         ch.carrier.feed(&frame(len, t));
                     }
-                    if tag == 14 && !ch.out && !ch.seen && len <= (1 << 20) {
+                    if tag == 14 && !ch.out && len <= (1 << 20) {
                         ch.seen = true;
                         ch.carrier.feed(&frame(len, t));
                     }
@@ -463,15 +474,21 @@ async fn run_ops(c: &[u64]) -> Option<Vec<u64>> {
                 }
             }
             15 => {
-                width = 4;
-                let (k, len, t) = (a(1)?, a(2)?, a(3)?);
+                width = 5;
+                let (k, len, t, fb) = (a(1)?, a(2)?, a(3)?, a(4)?);
                 if len > 1 << 20 {
                     return None;
                 }
                 if let Some(irid) = nth_mod(k, &w.hpend) {
                     target = Some(irid as u64);
                     w.hpend.retain(|x| *x != irid);
-                    w.handle.send_response(RequestId::from(irid), payload(len, t));
+                    if fb != 0 {
+                        let (tx, rx) = futures::channel::oneshot::channel();
+                        w.feedback.push((irid, rx));
+                        w.handle.send_response_with_feedback(RequestId::from(irid), payload(len, t), tx);
+                    } else {
+                        w.handle.send_response(RequestId::from(irid), payload(len, t));
+                    }
                 }
             }
             16 => {
@@ -516,7 +533,11 @@ fn run_case(c: &[u64]) -> Vec<u64> {
             .start_paused(true)
             .build()
             .unwrap();
-        rt.block_on(run_ops(&c))
+        // unconstrained: tokio's cooperative budget would otherwise make a ready channel or timer
+        // report Pending after ~128 operations within this single never-yielding poll, which the
+        // non-blocking probes of the harness (now_or_never, the idle arm of step) would mistake
+        // for "nothing ready"
+        rt.block_on(tokio::task::unconstrained(run_ops(&c)))
     }))
     .unwrap_or(Some(vec![PANIC_MARK]))
     .unwrap_or(vec![0])
@@ -524,7 +545,108 @@ fn run_case(c: &[u64]) -> Vec<u64> {
 
 // ------------------------------------------------------------------ generator
 
+/// Dialogue-shaped histories: the generator keeps a rough estimate of the environment (which
+/// peers are connected, how many substream-open commands and carriers exist, which inbound
+/// requests wait for the user) and mostly picks stimuli that hit something. The estimate may be
+/// wrong; a stimulus that misses is a no-op for implementation and model alike.
+fn gen_guided(rng: &mut Rng, thorough: bool) -> Vec<u64> {
+    let max_inb = rng.pick(&[0u64, 0, 0, 2, 3, 6]);
+    let ndial = rng.pick(&[2u64, 4, 4]);
+    let max_size = rng.pick(&[16u64, 300, 1024]);
+    let npeers = rng.range(1, 3) as usize;
+    let nops = if thorough { rng.range(10, 120) } else { rng.range(6, 50) };
+    let mut c = vec![max_inb, ndial, max_size, nops];
+    let lens = [0u64, 1, 2, 7, max_size - 1, max_size];
+    let mut connected = vec![false; npeers];
+    let mut dialing = vec![0u64; npeers];
+    let mut opens = 0u64;
+    let mut out_chans: Vec<u64> = Vec::new();
+    let mut in_chans: Vec<u64> = Vec::new();
+    let mut blocked: Vec<u64> = Vec::new();
+    let mut nchans = 0u64;
+    let mut ids = 0u64;
+    let mut waiting = 0u64;
+    for _ in 0..nops {
+        let p = rng.below(npeers as u64) as usize;
+        let len = if rng.chance(6) { max_size + 1 } else { rng.pick(&lens) };
+        let tag = rng.below(256);
+        let gate = rng.pick(&[1u64, 1, 1, 1, 0, 0, 2]);
+        let roll = rng.below(100);
+        let op: Vec<u64> = if roll < 22 {
+            ids += 1;
+            if connected[p] {
+                opens += 1;
+                vec![0, p as u64, rng.below(2), len, tag]
+            } else {
+                dialing[p] += 1;
+                vec![0, p as u64, if rng.chance(85) { 1 } else { 0 }, len, tag]
+            }
+        } else if roll < 32 {
+            if !connected[p] {
+                connected[p] = true;
+                opens += dialing[p];
+                dialing[p] = 0;
+            }
+            vec![2, p as u64, if rng.chance(5) { 1 } else { 0 }]
+        } else if roll < 50 && opens > 0 {
+            opens -= 1;
+            out_chans.push(nchans);
+            if gate == 0 {
+                blocked.push(nchans);
+            }
+            nchans += 1;
+            vec![5, rng.below(opens + 1), gate]
+        } else if roll < 62 && !out_chans.is_empty() {
+            vec![9, rng.pick(&out_chans), len, tag]
+        } else if roll < 66 && !blocked.is_empty() {
+            let i = rng.below(blocked.len() as u64) as usize;
+            vec![if rng.chance(80) { 7 } else { 8 }, blocked.swap_remove(i)]
+        } else if roll < 70 && ids > 0 {
+            vec![1, rng.below(ids)]
+        } else if roll < 73 {
+            vec![12, rng.pick(&[1700u64, 2600, 5100, 300])]
+        } else if roll < 76 && opens > 0 {
+            opens -= 1;
+            vec![6, rng.below(opens + 1), rng.below(2)]
+        } else if roll < 79 {
+            if connected[p] {
+                connected[p] = false;
+            }
+            vec![3, p as u64]
+        } else if roll < 81 {
+            dialing[p] = 0;
+            vec![4, p as u64]
+        } else if roll < 87 && connected[p] {
+            ids += 1;
+            in_chans.push(nchans);
+            if gate == 0 {
+                blocked.push(nchans);
+            }
+            nchans += 1;
+            vec![13, p as u64, gate]
+        } else if roll < 92 && !in_chans.is_empty() {
+            waiting += 1;
+            vec![14, rng.pick(&in_chans), len, tag]
+        } else if roll < 97 && waiting > 0 {
+            waiting -= 1;
+            vec![15, rng.below(waiting + 1), len, tag, rng.below(2)]
+        } else if roll < 98 && waiting > 0 {
+            waiting -= 1;
+            vec![16, rng.below(waiting + 1)]
+        } else if !out_chans.is_empty() {
+            vec![rng.pick(&[10u64, 11]), rng.pick(&out_chans)]
+        } else {
+            vec![17, p as u64]
+        };
+        c.extend(op);
+    }
+    c
+}
+
 fn gen_case(rng: &mut Rng, thorough: bool) -> Vec<u64> {
+    if rng.chance(45) {
+        return gen_guided(rng, thorough);
+    }
     let max_inb = rng.pick(&[0u64, 0, 1, 2, 3, 4]);
     let ndial = rng.pick(&[0u64, 2, 3, 4, 4]);
     let max_size = rng.pick(&[16u64, 16, 300, 1024]);
@@ -564,7 +686,7 @@ fn gen_case(rng: &mut Rng, thorough: bool) -> Vec<u64> {
                 vec![13, p, gate]
             }
             (_, 87..=92) => vec![14, k, len, tag],
-            (_, 93..=96) => vec![15, k, len, tag],
+            (_, 93..=96) => vec![15, k, len, tag, rng.below(2)],
             (_, 97..=98) => vec![16, k],
             _ => vec![17, p],
         };
